@@ -323,20 +323,21 @@ def _install():
                        "started_pushed": None if act == "park" else any(e.name == "FlowStarted" and e.arguments.get("source_flow_instance_uid") == ep["uid"] and id(e) not in ep["_qids"] for e in ep["_state"].internal_events)})
 
     def outer(op, orig):
-        def w(state, flow_state, matching_scores, deactivate_flow=False):
+        # `*extra`: a repaired `_abort_flow` may thread further arguments through its recursion (visited set)
+        def w(state, flow_state, matching_scores, deactivate_flow=False, *extra):
             R = REC
             if R is None:
-                return orig(state, flow_state, matching_scores, deactivate_flow)
+                return orig(state, flow_state, matching_scores, deactivate_flow, *extra)
             if R.depth > 0:
-                return orig(state, flow_state, matching_scores, deactivate_flow)
+                return orig(state, flow_state, matching_scores, deactivate_flow, *extra)
             resolve_end(R, op, flow_state.uid)
             if len(R.records) >= MAX_RECORDS:
-                return orig(state, flow_state, matching_scores, deactivate_flow)
+                return orig(state, flow_state, matching_scores, deactivate_flow, *extra)
             pre = snap(state)
             R.depth += 1
             exc = None
             try:
-                return orig(state, flow_state, matching_scores, deactivate_flow)
+                return orig(state, flow_state, matching_scores, deactivate_flow, *extra)
             except BaseException as e:
                 exc = type(e).__name__
                 raise
@@ -749,7 +750,9 @@ def _encode_state(pre):
 
 def _model_req(rec):
     st, fu, au, fid, sc = _encode_state(rec["pre"])
-    fuel = len(st["flows"]) + 2
+    # theorem abortTopV_fuel_sufficient: 2 * #instances + 1 suffices for the repaired recursion on EVERY hierarchy;
+    # for the as-is recursion (answer "asis") any fuel above the depth suffices on acyclic hierarchies (abort_fuel_sufficient)
+    fuel = 2 * len(st["flows"]) + 3
     op = rec["op"]
     if op in ("abort", "finish"):
         return {"m": "C06." + op, "st": st, "uid": fu.get(rec["uid"]), "d": rec["d"], "fuel": fuel}
@@ -788,7 +791,25 @@ def model_requests(case, obs):
 _EXC = {"KeyError": "KeyError", "ValueError": "ValueError", "ColangRuntimeError": "ColangRuntimeError", "RecursionError": "fuel"}
 
 
+def _cmp_asis(rec, m):
+    """the as-is recursion (the one the unconditional-on-acyclicity theorems of Theorems/C06.lean speak about) and the
+    repaired recursion (visited set) give the same answer whenever the as-is one terminates"""
+    a = m.get("asis")
+    if a is None or (a.get("res") == "err" and a.get("kind") == "fuel"):
+        return None
+    if _has_child_cycle(rec["pre"]["flows"]):
+        return None  # inside a cycle of child flows the two recursions legitimately differ (re-entered instances)
+    b = {k: v for k, v in m.items() if k != "asis"}
+    if a != b:
+        return f"{rec['op']} uid={rec.get('uid')}: as-is and repaired recursion models differ although the as-is one terminates: {str(a)[:150]} / {str(b)[:150]}"
+    return None
+
+
 def _cmp_record(rec, m):
+    if rec["op"] in ("abort", "finish", "endscope"):
+        d = _cmp_asis(rec, m)
+        if d:
+            return d
     st, fu, au, fid, sc = _encode_state(rec["pre"])
     if rec["op"] == "startflow" and late_starts({"records": [rec]}):
         g = m.get("start")
@@ -1090,7 +1111,14 @@ def _has_child_cycle(flows):
 def signature(case, obs, msg):
     if not msg:
         return None
-    if ("RecursionError" in msg or "ValueError" in msg) and any(_has_child_cycle(s.get("flows", [])) for s in obs.get("steps", [])):
+    cyc = any(_has_child_cycle(s.get("flows", [])) for s in obs.get("steps", [])) or \
+        any(r.get("pre") and _has_child_cycle(r["pre"]["flows"]) for r in obs.get("records", []))
+    if ("RecursionError" in msg or "ValueError" in msg) and cyc:
+        return "activation-cycle-recursion"
+    # the model is of the REPAIRED recursion (visited set): on the unpatched tree an instance inside a cycle of child
+    # flows is re-entered (ended twice) even when no exception escapes
+    if cyc and msg.split(" ")[0].rstrip(":") in ("abort", "finish", "endscope") and \
+            any(r["op"] in ("abort", "finish", "endscope") and r.get("pre") and _has_child_cycle(r["pre"]["flows"]) for r in obs.get("records", [])):
         return "activation-cycle-recursion"
     bad = bad_cowins(obs)
     if bad:
